@@ -7,6 +7,7 @@ import (
 	"fmt"
 	"os"
 	"os/exec"
+	"regexp"
 	"regexp/syntax"
 	"strings"
 	"time"
@@ -150,6 +151,42 @@ func c07Worker(seed uint64, thorough bool, part string) int {
 			n++
 			if res != "" {
 				fmt.Fprintf(w, "PROBLEM big input %q on %q x %d: %s\n", c.p, c.unit, c.n, res)
+			}
+			w.Flush()
+		}
+		// matches far apart in a haystack beyond the bounded backtracker's capacity, also in leftmost-longest mode (windowed
+		// fallbacks translate offsets): every span in bounds, FindAll does not panic, the enumeration equals regexp's
+		for _, c := range []struct {
+			p       string
+			longest bool
+		}{{`([a-z]{2,8})+`, true}, {`([a-z]{2,8})+`, false}, {`(\w+)\s(\w+)`, true}, {`[a-z]+[0-9]`, false}} {
+			re, err := coregex.Compile(c.p)
+			if err != nil {
+				continue
+			}
+			std := regexp.MustCompile(c.p)
+			if c.longest {
+				re.Longest()
+				std.Longest()
+			}
+			h := append(append(bytes.Repeat([]byte(" "), 2<<20), "foo bar baz qux1 "...), bytes.Repeat([]byte(" "), 3<<19)...)
+			try("bigsparse", []byte(c.p), []byte(fmt.Sprint(len(h), c.longest)))
+			res := guard(240*time.Second, func() string {
+				got := re.FindAllIndex(h, -1)
+				for _, m := range got {
+					if m[0] < 0 || m[1] > len(h) || m[0] > m[1] {
+						return fmt.Sprintf("FindAllIndex span out of bounds: %v (len %d)", m, len(h))
+					}
+				}
+				if want := std.FindAllIndex(h, -1); fmt.Sprint(got) != fmt.Sprint(want) {
+					return fmt.Sprintf("FindAllIndex=%v regexp=%v", got, want)
+				}
+				_ = re.FindAll(h, -1)
+				return ""
+			})
+			n++
+			if res != "" {
+				fmt.Fprintf(w, "PROBLEM big sparse input %q (longest=%v) on 2 MiB of spaces + \"foo bar baz qux1 \" + 1.5 MiB of spaces: %s\n", c.p, c.longest, res)
 			}
 			w.Flush()
 		}
